@@ -171,6 +171,10 @@ def gen_cases(rng, tier):
         cases.append({'kind': kind, 'names': names, 'rows': rows_enc(rows), 'types': types, 'two': False, 'regex': False, 'fields': ['b', 'a'] if kind == 'select' else ['b'],
                       'oneshot': True, 'narrow2': 'c'})
         cases.append({'kind': kind, 'names': names, 'rows': rows_enc(rows), 'types': types, 'two': False, 'regex': True, 'fields': ['[ab]'], 'again': True})
+    # one select_fields object at two positions of a chain with a renaming step between them: each position selects from
+    # the schema it finds
+    cases.append({'kind': 'reuse_select', 'names': ['id', 'label', 'other'], 'rows': rows_enc([{'id': 1, 'label': 'x', 'other': True}, {'id': 2, 'label': 'y', 'other': False}]),
+                  'types': {'id': 'integer', 'label': 'string', 'other': 'boolean'}, 'two': False, 'regex': True})
     # systematically: sum and join over two columns, with a second selected resource that lacks one of them
     for op, w in (('sum', ''), ('join', '-')):
         for drop in ('c1', 'c2'):
@@ -224,6 +228,13 @@ def step_of(case):
 
 
 def run_impl(case):
+    if case['kind'] == 'reuse_select':
+        res = [mk_resource('t', case['names'], rows_dec(case['rows']), types=case['types'])]
+        st = DF.select_fields(['id', 'label.*'], regex=True)
+        out = run_stream(res, [st, DF.rename_fields({'label': 'label_en'}, regex=False), st])
+        if 'error' in out:
+            return {'error': out['error'], 'exc': out['exc']}
+        return {'rows': rows_enc(out['rows'][0]), 'fields': field_names(out['dp'], 0)}
     rows = rows_dec(case['rows'])
     res = [mk_resource('t', case['names'], rows, types=case['types'])]
     if case['two']:
@@ -263,6 +274,9 @@ def run_impl(case):
     if case['two']:
         r['other_rows'] = rows_enc(out['rows'][1])
         r['other_fields'] = field_names(out['dp'], 1)
+    if case.get('narrow2') and len(out['rows']) > 1:
+        r['narrow_rows'] = rows_enc(out['rows'][-1])
+        r['narrow_fields'] = field_names(out['dp'], len(out['rows']) - 1)
     return r
 
 
@@ -379,6 +393,13 @@ def same_rows(a, b, ordered=True):
 
 
 def oracle(case, out):
+    if case['kind'] == 'reuse_select':
+        if out.get('error') is not None:
+            return 'select_fields used at two positions of one chain: run failed (%s)' % out.get('exc')
+        want = [{'id': r['id'], 'label_en': r['label']} for r in rows_dec(case['rows'])]
+        if out['fields'] != ['id', 'label_en'] or not same_rows(rows_dec(out['rows']), want, ordered=False):
+            return 'select_fields used at two positions of one chain (a rename between them): fields %r rows %r, expected %r' % (out['fields'], rows_dec(out['rows'])[:2], want[:2])
+        return None
     exp = expected(case)
     k = case['kind']
     if exp[0] == 'skip':
@@ -397,6 +418,17 @@ def oracle(case, out):
     for r in got:
         if set(r.keys()) != set(out['fields']):
             return '%s: row keys %r disagree with the schema %r' % (k, list(r.keys()), out['fields'])
+    if case.get('narrow2') and k in ('select', 'delete') and 'narrow_fields' in out and not case.get('again'):
+        # the second selected resource (it lacks one field): the step does to it what it does to a resource of that shape
+        keep = [n for n in case['names'] if n != case['narrow2']]
+        c2 = dict(case, names=keep, rows=rows_enc([dict((k_, v_) for k_, v_ in r_.items() if k_ != case['narrow2']) for r_ in rows_dec(case['rows'])]),
+                  types=dict((n, case['types'][n]) for n in keep), narrow2=None)
+        exp2 = expected(c2)
+        if exp2[0] == 'ok':
+            if out['narrow_fields'] != exp2[1]:
+                return '%s: the second selected resource has the schema fields %r, expected %r' % (k, out['narrow_fields'], exp2[1])
+            if not same_rows(rows_dec(out['narrow_rows']), exp2[2], ordered=(k != 'select')):
+                return '%s: the rows of the second selected resource differ from the documented result' % k
     if case['two']:
         if out['other_fields'] != case['names'] or not same_rows(rows_dec(out['other_rows']), input_rows(case)):
             return '%s: the unselected resource was changed' % k
@@ -423,6 +455,8 @@ def coq_cop(f):
 
 def coq_term(case, out):
     k = case['kind']
+    if k == 'reuse_select':
+        return None
     names = cstrs(case['names'])
     rows = input_rows(case)
     err = out.get('error')
